@@ -96,7 +96,7 @@ def _classify(out, err, dt, timeout):
     return first
 
 
-def solve(text, timeout=30, tier='quick', order=None, pre_text=None):
+def solve(text, timeout=30, tier='quick', order=None, pre_text=None, stage_timeout=3):
     """quick tier: most obligations are discharged by z3 5.1 in milliseconds, so it is tried alone first with a short
     budget; anything else goes to the full racing portfolio with the full budget."""
     if tier == 'cover':
@@ -106,11 +106,11 @@ def solve(text, timeout=30, tier='quick', order=None, pre_text=None):
     if pre_text is not None:
         # stage 0: recursive specification functions left uninterpreted (weaker hypotheses: a proof found here is valid and
         # is not disturbed by the solver's unfolding heuristics, which made some proofs unstable)
-        v, dt, out, err = run_one('z3-5.1', pre_text, 3)
+        v, dt, out, err = run_one('z3-5.1', pre_text, stage_timeout)
         if v == 'unsat':
             return Result('unsat', 'z3-5.1(opaque-specs)', dt, {'z3-5.1(opaque-specs)': (v, dt, out)})
     if tier == 'quick' and order is None:
-        v, dt, out, err = run_one('z3-5.1', text, 3)
+        v, dt, out, err = run_one('z3-5.1', text, stage_timeout)
         if v == 'unsat':
             return Result('unsat', 'z3-5.1', dt, {'z3-5.1': (v, dt, out)})
     return solve_race(text, timeout, tier, order)
@@ -202,10 +202,13 @@ def solve_many(jobs, timeout=30, tier='quick', progress=None):
     # out on several obligations at once - those stay undecided).
     if tier == 'quick':
         texts = {job[0]: job[1] for job in jobs}
+        pres = {job[0]: (job[2] if len(job) > 2 else None) for job in jobs}
         late = [k for k, r in res.items() if r.verdict == 'timeout'][:RETRY_MAX + 1]
         if 0 < len(late) <= RETRY_MAX:
             with ThreadPoolExecutor(max_workers=2) as ex:
-                futs = {ex.submit(solve_race, texts[k], timeout * 2, tier, None): k for k in late}
+                # all stages again, the short ones with a longer budget too: some obligations are only ever discharged with the
+                # specification functions opaque, and miss that stage's 3 s when the machine is busy
+                futs = {ex.submit(solve, texts[k], timeout * 2, tier, None, pres[k], 20): k for k in late}
                 for f, k in futs.items():
                     r = f.result()
                     if r.verdict in ('unsat', 'sat'):
